@@ -32,7 +32,25 @@ def token_pair(tid, text, v, cpy):
         praised = True
     return {'id': tid, 'kind': 'tokens', 'v312': tuple(map(int, v.split('.'))) >= (3, 12), 'cpy': ctoks, 'par': ptoks,
             'empty': 1, 'praised': praised, 'text': text, 'ver': v,
-            'ff': bool(__import__('re').search(r'(?m)^[ \t]*\f', text))}
+            'ff': bool(__import__('re').search(r'(?m)^[ \t]*\f', text)),
+            # a physical line that holds nothing but blanks and a backslash continuation (cause class of a known finding)
+            'bs': bool(__import__('re').search(r'(?m)^[ \t\f]*\\\r?\n', text))}
+
+
+def _empty_logical_line(toks):
+    """The pure-Python tokenize module (<= 3.11) reports NEWLINE (and INDENT / DEDENT around it) for a logical line that
+    consists of backslash continuations and blanks only, e.g. '\\\n\n'; the C tokenizer - the one that reads programs,
+    and since 3.12 also the one behind tokenize - reports NL.  Such streams say nothing about CPython's tokenizer, so the
+    program is not used (counted in coverage as reference_artefacts_skipped)."""
+    seen = False
+    for t in toks:
+        if t[0] == 'NEWLINE':
+            if not seen:
+                return True
+            seen = False
+        elif t[0] not in ('NL', 'COMMENT', 'ENCODING', 'INDENT', 'DEDENT', 'ENDMARKER'):
+            seen = True
+    return False
 
 
 def run(tier):
@@ -44,6 +62,7 @@ def run(tier):
     try:
         traces = []
         nacc_ref = 0
+        n_artefact = 0
         for v, plist in progs.items():
             jv = oracle.judge_version(v)
             texts = [t for t, _ in plist]
@@ -54,11 +73,14 @@ def run(tier):
                     continue        # the reference (tokenize over readline) does not treat a bare \\r as a line break
                 if not cr['ok'] or not r['ok'] or any(t[0] == 'ERRORTOKEN' for t in r['toks']):
                     continue        # CPython does not tokenize it without error: no claim
+                if _empty_logical_line(r['toks']):
+                    n_artefact += 1
+                    continue        # reference artefact, see _empty_logical_line
                 nacc_ref += 1
                 tr = token_pair(len(traces) + 1, text, v, r['toks'])
                 tr['origin'] = origin
                 traces.append(tr)
-        slim = [{k: t[k] for k in ('id', 'kind', 'v312', 'cpy', 'par', 'empty', 'praised', 'ff')} for t in traces]
+        slim = [{k: t[k] for k in ('id', 'kind', 'v312', 'cpy', 'par', 'empty', 'praised', 'ff', 'bs')} for t in traces]
         acc = 0
         rejects = []
         for i in range(0, len(slim), 1500):
@@ -73,7 +95,8 @@ def run(tier):
             out.violation(r[3], 'Relational.' + r[3], {'text': t['text'][:400], 'version': t['ver'], 'origin': t['origin']},
                           {'kind': 'tokens', 'text': t['text'], 'version': t['ver']})
         out.cov(evaluations=len(traces), distinct_nontrivial=len({(t['text'], t['ver']) for t in traces if len(t['cpy']) > 3}),
-                traces_validated_against_impl=acc, reference_accepted=nacc_ref, versions=versions,
+                traces_validated_against_impl=acc, reference_accepted=nacc_ref, reference_artefacts_skipped=n_artefact,
+                versions=versions,
                 rule='programs = every numeric / string-literal shape (TLC Strings over two literal alphabets, <= 4/5 symbols, as `x = <lit>`) + stdlib chunks of the judging interpreter and their token-level mutations + rendered ParserB '
                      'sentences (two spellings), kept iff interpreter V compiles them and its tokenize accepts them without ERRORTOKEN; one (CPython, parso) token '
                      'stream pair per program; non-trivial = more than 3 reference tokens; distinct by (text, version)')
